@@ -2,7 +2,7 @@ use std::{
     collections::{HashMap, HashSet},
     hash::{DefaultHasher, Hash, Hasher},
     sync::{
-        atomic::{AtomicBool, Ordering},
+        atomic::{AtomicBool, AtomicU64, Ordering},
         Arc,
     },
 };
@@ -52,10 +52,13 @@ impl DeviceHandle {
     }
 
     fn check_publish_state_and_get_seq(&self) -> Result<u64, PublishError> {
-        if !self.state.birthed.load(Ordering::Relaxed) {
+        if !self.state.birthed.load(Ordering::SeqCst) {
             return Err(PublishError::State(StateError::UnBirthed));
         }
-        Ok(self.node_state.get_next_seq()?)
+        /* The device birth is only valid for the node birth it was published in */
+        let birth_epoch = self.state.birth_epoch.load(Ordering::SeqCst);
+        let (seq, _) = self.node_state.get_next_seq_and_epoch(Some(birth_epoch))?;
+        Ok(seq)
     }
 
     fn publish_metrics_to_payload(&self, seq: u64, metrics: Vec<PublishMetric>) -> Payload {
@@ -118,6 +121,7 @@ impl MetricPublisher for DeviceHandle {
 
 pub(crate) struct DeviceState {
     birthed: AtomicBool,
+    birth_epoch: AtomicU64,
     id: DeviceId,
     pub(crate) name: Arc<String>,
     ddata_topic: DeviceTopic,
@@ -181,8 +185,8 @@ impl Device {
             return;
         }
 
-        let seq = match self.eon_state.get_next_seq() {
-            Ok(seq) => seq,
+        let (seq, birth_epoch) = match self.eon_state.get_next_seq_and_epoch(None) {
+            Ok(res) => res,
             Err(_) => return,
         };
 
@@ -203,6 +207,7 @@ impl Device {
             .await
             .is_ok()
         {
+            self.state.birth_epoch.store(birth_epoch, Ordering::SeqCst);
             self.state.birthed.store(true, Ordering::SeqCst);
             info!(
                 "Device birthed. Node = {}, Device = {}, Type = {:?}",
@@ -224,10 +229,11 @@ impl Device {
         );
 
         if publish {
-            //getting the sequence can only fail if the node is no longer birthed/offline
-            //in this case we cant/shouldn't publish
-            let seq = match self.eon_state.get_next_seq() {
-                Ok(seq) => seq,
+            //getting the sequence can only fail if the node is no longer birthed/offline or has been (re)birthed
+            //since the device was birthed. In this case we cant/shouldn't publish
+            let birth_epoch = self.state.birth_epoch.load(Ordering::SeqCst);
+            let seq = match self.eon_state.get_next_seq_and_epoch(Some(birth_epoch)) {
+                Ok((seq, _)) => seq,
                 Err(_) => return,
             };
 
@@ -410,6 +416,7 @@ impl DeviceMap {
                     &name,
                 ),
                 birthed: AtomicBool::new(false),
+                birth_epoch: AtomicU64::new(0),
             }),
             template_registry: self.template_registry.clone(),
             enabled: false,
